@@ -14,7 +14,11 @@ use crate::{
 };
 
 use super::{
-    PlannerError, PlannerResult, logical::*, memo::Memo, physical::*, prop::RequiredProperties,
+    PlannerError, PlannerResult,
+    logical::*,
+    memo::Memo,
+    physical::*,
+    prop::{LogicalProperties, RequiredProperties},
 };
 
 /// Base trait for all rules.
@@ -76,50 +80,6 @@ pub fn implementation_rules() -> Vec<Box<dyn ImplementationRule>> {
 }
 
 // Helper functions
-
-/// Swaps left/right in a join condition.
-fn swap_join_condition(cond: &BoundExpression) -> BoundExpression {
-    match cond {
-        BoundExpression::BinaryOp {
-            left,
-            op,
-            right,
-            result_type,
-        } => {
-            let swapped_op = match op {
-                BinaryOperator::Eq => BinaryOperator::Eq,
-                BinaryOperator::Lt => BinaryOperator::Gt,
-                BinaryOperator::Gt => BinaryOperator::Lt,
-                BinaryOperator::Le => BinaryOperator::Ge,
-                BinaryOperator::Ge => BinaryOperator::Le,
-                BinaryOperator::And => {
-                    return BoundExpression::BinaryOp {
-                        left: Box::new(swap_join_condition(left)),
-                        op: BinaryOperator::And,
-                        right: Box::new(swap_join_condition(right)),
-                        result_type: *result_type,
-                    };
-                }
-                BinaryOperator::Or => {
-                    return BoundExpression::BinaryOp {
-                        left: Box::new(swap_join_condition(left)),
-                        op: BinaryOperator::Or,
-                        right: Box::new(swap_join_condition(right)),
-                        result_type: *result_type,
-                    };
-                }
-                _ => *op,
-            };
-            BoundExpression::BinaryOp {
-                left: right.clone(),
-                op: swapped_op,
-                right: left.clone(),
-                result_type: *result_type,
-            }
-        }
-        _ => cond.clone(),
-    }
-}
 
 /// Rebuilds `expr` with every column index `i` replaced by `f(i)`; `None` as soon as `f` rejects an index.
 /// Walks every expression form the evaluator accepts (sub-queries keep their own scope and are not entered).
@@ -445,14 +405,16 @@ impl Rule for JoinCommutativityRule {
 }
 
 impl TransformationRule for JoinCommutativityRule {
-    fn matches(&self, expr: &LogicalExpr, _memo: &Memo) -> bool {
-        matches!(
-            &expr.op,
-            LogicalOperator::Join(j) if j.join_type == JoinType::Inner || j.join_type == JoinType::Cross
-        )
+    fn matches(&self, expr: &LogicalExpr, memo: &Memo) -> bool {
+        // a join that is itself the commuted form of another one is not commuted back
+        !memo.is_commuted(expr.id.group_id)
+            && matches!(
+                &expr.op,
+                LogicalOperator::Join(j) if j.join_type == JoinType::Inner || j.join_type == JoinType::Cross
+            )
     }
 
-    fn apply(&self, expr: &LogicalExpr, _memo: &mut Memo) -> PlannerResult<Vec<LogicalExpr>> {
+    fn apply(&self, expr: &LogicalExpr, memo: &mut Memo) -> PlannerResult<Vec<LogicalExpr>> {
         let LogicalOperator::Join(join) = &expr.op else {
             return Ok(vec![]);
         };
@@ -460,20 +422,59 @@ impl TransformationRule for JoinCommutativityRule {
             return Ok(vec![]);
         }
 
-        let swapped_cond = join.condition.as_ref().map(swap_join_condition);
+        let left_cols = join.left_schema.num_columns();
+        let right_cols = join.right_schema.num_columns();
+
+        // The inputs change places: in the rows of the commuted join the columns of the old right input
+        // come first. The condition is re-indexed accordingly (its operands stay as they are).
+        let swapped_cond = match &join.condition {
+            Some(c) => Some(
+                map_columns(c, &|i| {
+                    Some(if i < left_cols {
+                        i + right_cols
+                    } else {
+                        i - left_cols
+                    })
+                })
+                .ok_or(PlannerError::InvalidState)?,
+            ),
+            None => None,
+        };
         let new_join = JoinOp::new(
             join.join_type,
             swapped_cond,
             join.right_schema.clone(),
             join.left_schema.clone(),
         );
+        let swapped_schema = new_join.output_schema.clone();
 
-        Ok(vec![
+        // The commuted join produces its columns in another order than this group, so it lives in a group
+        // of its own.
+        let swapped_props = LogicalProperties::new(swapped_schema.clone())
+            .with_cardinality(expr.properties.cardinality)
+            .with_avg_row_size(expr.properties.avg_row_size);
+        let swapped_group = memo.insert_logical_expr(
             LogicalExpr::new(
                 LogicalOperator::Join(new_join),
                 vec![expr.children[1], expr.children[0]],
             )
-            .with_properties(expr.properties.clone()),
+            .with_properties(swapped_props),
+        );
+        memo.mark_commuted(swapped_group);
+
+        // A projection on top restores the column order of this group.
+        let restore: Vec<ProjectExpr> = (right_cols..right_cols + left_cols)
+            .chain(0..right_cols)
+            .map(|idx| ProjectExpr {
+                expr: create_column_ref(idx, &swapped_schema),
+                alias: None,
+            })
+            .collect();
+        let project = ProjectOp::new(restore, swapped_schema, join.output_schema.clone());
+
+        Ok(vec![
+            LogicalExpr::new(LogicalOperator::Project(project), vec![swapped_group])
+                .with_properties(expr.properties.clone()),
         ])
     }
 }
